@@ -13,8 +13,15 @@ using namespace std;
 double DownhillSimplexMethod::DSMStopCondition::getCurrentTolerance() const
 {
   const DownhillSimplexMethod* dsm = dynamic_cast<const DownhillSimplexMethod*>(optimizer_);
-  double rTol = 2.0 * NumTools::abs(dsm->y_[dsm->iHighest_] - dsm->y_[dsm->iLowest_]) /
-      (NumTools::abs(dsm->y_[dsm->iHighest_]) + NumTools::abs(dsm->y_[dsm->iLowest_]));
+  // The indices iHighest_/iLowest_ were determined before the last move, which replaced the worst vertex:
+  // use the extreme values of the simplex as it is now.
+  double yHigh = dsm->y_[0], yLow = dsm->y_[0];
+  for (size_t i = 1; i < dsm->y_.size(); ++i)
+  {
+    if (dsm->y_[i] > yHigh) yHigh = dsm->y_[i];
+    if (dsm->y_[i] < yLow) yLow = dsm->y_[i];
+  }
+  double rTol = 2.0 * NumTools::abs(yHigh - yLow) / (NumTools::abs(yHigh) + NumTools::abs(yLow));
   return rTol;
 }
 
